@@ -128,12 +128,21 @@ def body_euler(c):
     snaps = [(t, build.snapshot(t)) for t in (op, x0, guess)]
     I = np.eye(N)
     kw = dict(normalize=p, progress=False)
-    if c['scheme'] == 'explicit':
-        sol = ode.explicit_euler(op, x0, list(steps), **kw)
-    elif c['scheme'] == 'implicit':
-        sol = ode.implicit_euler(op, x0, guess, list(steps), repeats=c['repeats'], tt_solver=c['tt_solver'], micro_solver=c['micro_solver'], **kw)
-    else:
-        sol = ode.trapezoidal_rule(op, x0, guess, list(steps), repeats=c['repeats'], tt_solver=c['tt_solver'], micro_solver=c['micro_solver'], **kw)
+    steps_arg = list(steps)
+
+    def integrate():
+        if c['scheme'] == 'explicit':
+            return ode.explicit_euler(op, x0, steps_arg, **kw)
+        if c['scheme'] == 'implicit':
+            return ode.implicit_euler(op, x0, guess, steps_arg, repeats=c['repeats'], tt_solver=c['tt_solver'], micro_solver=c['micro_solver'], **kw)
+        return ode.trapezoidal_rule(op, x0, guess, steps_arg, repeats=c['repeats'], tt_solver=c['tt_solver'], micro_solver=c['micro_solver'], **kw)
+
+    sol = integrate()
+    if c['seed'] % 3 == 0 and isinstance(sol, list) and len(sol) == len(steps) + 1:
+        # once more with the very same argument objects (step-size list included): same trajectory
+        again = integrate()
+        require(isinstance(again, list) and len(again) == len(sol), 'repeatable', 'second identical call returns %d states' % len(again))
+        close(vec(again[-1]), vec(sol[-1]), 1e-12, max(np.linalg.norm(vec(sol[-1])), 1e-300), 'repeatable', 'final state of a second identical call')
     require(isinstance(sol, list) and len(sol) == len(steps) + 1, 'length', 'trajectory has %d states for %d steps' % (len(sol), len(steps)))
     for t, s in snaps:
         build.require_unchanged(t, s, 'argument of the integrator')
